@@ -109,6 +109,10 @@ func tryGCS(c *fw.Ctx, id string, gc gcsCase, tag func(*GOp) string) (ok bool, h
 	c.Trace(1)
 	c.Trans(1)
 	if m != "" {
+		// locate the earliest disagreement (intermediate steps are only fully checked on demand)
+		if m2, cl2, _ := runGCS(c, gc, true, tag); m2 != "" {
+			m, cl = m2, cl2
+		}
 		sig := fmt.Sprintf("%s:%s:%s", id, gc.Store, cl)
 		c.Violate(sig, m+"\n  program: "+GOpsString(gc.Ops), gc, func() string {
 			m2, cl2, _ := runGCS(c, gc, true, tag)
